@@ -243,40 +243,44 @@ Proof. vm_compute. repeat split. Qed.
 
 Definition c18_valid (c : c18_case) : Prop := True.
 
+Lemma effects_eqb_eq a b : effects_eqb a b = true -> a = b.
+Proof.
+  destruct a as [ra fa sa ba wa], b as [rb fb sb bb wb]. unfold effects_eqb; cbn. intros H.
+  repeat (apply andb_true_iff in H; destruct H as [H ?]).
+  assert (ra = rb) by (destruct ra, rb; try discriminate; reflexivity).
+  assert (fa = fb) by (apply Bool.eqb_prop; assumption).
+  assert (sa = sb) by (destruct sa, sb; cbn in *; try discriminate; try reflexivity; f_equal; apply N.eqb_eq; assumption).
+  assert (ba = bb) by (destruct ba, bb; try discriminate; reflexivity).
+  assert (wa = wb) by (destruct wa, wb; try discriminate; reflexivity).
+  subst. reflexivity.
+Qed.
+
 Lemma c18_role_sound : forall k r proxy l obs,
   c18_check (RoleCase k r proxy l obs) = true -> c18_oracle (RoleCase k r proxy l obs) = None.
 Proof.
-  intros k r proxy l obs H. cbn in H.
-  assert (E : role_row_ok k r l obs = role_row_ok k r l (roles_effects k r proxy l)).
-  { unfold effects_eqb in H. repeat (apply andb_true_iff in H; destruct H as [H ?]).
-    unfold role_row_ok, set_verdict, role_row_rest.
-    assert (f_backend (roles_effects k r proxy l) = f_backend obs) as ->
-      by (destruct (f_backend (roles_effects k r proxy l)), (f_backend obs); try discriminate; reflexivity).
-    assert (f_resp (roles_effects k r proxy l) = f_resp obs) as ->
-      by (destruct (f_resp (roles_effects k r proxy l)), (f_resp obs); try discriminate; reflexivity).
-    assert (f_fetch (roles_effects k r proxy l) = f_fetch obs) as -> by (apply Bool.eqb_prop; assumption).
-    assert (f_set (roles_effects k r proxy l) = f_set obs) as ->.
-    { destruct (f_set (roles_effects k r proxy l)), (f_set obs); cbn in *; try discriminate; try reflexivity.
-      f_equal. apply N.eqb_eq. assumption. }
-    reflexivity. }
-  cbn. rewrite E. clear E H.
+  intros k r proxy l obs H. cbn in H. apply effects_eqb_eq in H. subst obs. cbn [c18_oracle].
   destruct r, k, proxy, l; unfold role_row_ok, set_verdict, role_row_rest; cbn; rewrite ?N.eqb_refl; reflexivity.
 Qed.
 
+(* a schedule that runs both reads to completion: both are observed finished and fresh *)
 Lemma c18_sched_sound : forall l0 f0 ls a b sets,
+  c18_validb (SchedCase l0 f0 ls a b sets) = true ->
   c18_check (SchedCase l0 f0 ls a b sets) = true -> c18_oracle (SchedCase l0 f0 ls a b sets) = None.
 Proof.
-  intros l0 f0 ls a b sets H. cbn in H.
+  intros l0 f0 ls a b sets Hv H. cbn in H, Hv.
   apply andb_true_iff in H; destruct H as [H Hs]. apply andb_true_iff in H; destruct H as [Ha Hb].
+  apply andb_true_iff in Hv; destruct Hv as [Da Db].
   pose proof (read_fresh l0 f0 ls) as Hf. set (s := run_code (i_init l0 f0) ls) in *.
   unfold fresh in Hf. apply andb_true_iff in Hf. destruct Hf as [Fa Fb].
   assert (Hfa : tobs_fresh a = true).
-  { unfold thr_fresh in Fa. unfold obs_of_thr in Ha. destruct (t_pc (i_a s)); destruct a as [d bg sc j]; cbn in Ha |- *;
-      repeat (apply andb_true_iff in Ha; destruct Ha as [Ha ?]); destruct d; try discriminate; try reflexivity.
+  { unfold thr_fresh in Fa. unfold thr_done in Da. unfold obs_of_thr in Ha. destruct (t_pc (i_a s)); try discriminate Da.
+    destruct a as [d bg sc j]; cbn in Ha |- *;
+      repeat (apply andb_true_iff in Ha; destruct Ha as [Ha ?]); destruct d; try discriminate.
     apply N.eqb_eq in H0; apply N.eqb_eq in H1; subst. exact Fa. }
   assert (Hfb : tobs_fresh b = true).
-  { unfold thr_fresh in Fb. unfold obs_of_thr in Hb. destruct (t_pc (i_b s)); destruct b as [d bg sc j]; cbn in Hb |- *;
-      repeat (apply andb_true_iff in Hb; destruct Hb as [Hb ?]); destruct d; try discriminate; try reflexivity.
+  { unfold thr_fresh in Fb. unfold thr_done in Db. unfold obs_of_thr in Hb. destruct (t_pc (i_b s)); try discriminate Db.
+    destruct b as [d bg sc j]; cbn in Hb |- *;
+      repeat (apply andb_true_iff in Hb; destruct Hb as [Hb ?]); destruct d; try discriminate.
     apply N.eqb_eq in H0; apply N.eqb_eq in H1; subst. exact Fb. }
   cbn. rewrite Hfa, Hfb. reflexivity.
 Qed.
@@ -318,10 +322,20 @@ Lemma explicit_revision_reads_sync : forall m v proxy l,
   roles_effects (ERangeAt m v) Follower proxy l = roles_effects ERangeList Follower proxy l.
 Proof. reflexivity. Qed.
 
-Lemma c18_follow_sound : forall m v r1 r2 sets hdr2,
+(* the sequential follower: after a read at r1 and the leader's move to a larger r2, a second read of any kind installs
+   r2 and is answered at r2 *)
+Lemma follow_model_eq m v r1 r2 : (0 < r1)%N -> (r1 < r2)%N -> follow_model m v r1 r2 = ([r1; r2], r2).
+Proof.
+  intros H1 H2. unfold follow_model, fn_req, fn_apply, fn_init. cbn [roles_effects read_effects sync_read f_set f_resp fst fn_synced fn_rev fn_sets].
+  replace (0 <? r1)%N with true by (symmetry; apply N.ltb_lt; exact H1). cbn [fn_synced fn_rev fn_sets].
+  replace (r1 <? r2)%N with true by (symmetry; apply N.ltb_lt; exact H2). cbn [fn_synced fn_rev fn_sets app].
+  f_equal. lia.
+Qed.
+
+Lemma c18_follow_sound : forall m v r1 r2 sets hdr2, (0 < r1)%N -> (r1 < r2)%N ->
   c18_check (FollowCase m v r1 r2 sets hdr2) = true -> c18_oracle (FollowCase m v r1 r2 sets hdr2) = None.
 Proof.
-  intros m v r1 r2 sets hdr2 H. unfold c18_check, follow_model in H.
+  intros m v r1 r2 sets hdr2 Hr1 Hr2 H. unfold c18_check in H. rewrite (follow_model_eq m v r1 r2 Hr1 Hr2) in H.
   apply andb_true_iff in H. destruct H as [H1 H2]. apply list_eqb_N_eq in H1. subst sets.
   apply N.eqb_eq in H2. subst hdr2. unfold c18_oracle. cbn [rev app]. rewrite N.eqb_refl, N.leb_refl. reflexivity.
 Qed.
@@ -353,10 +367,87 @@ Lemma forward_never_sets : forall k l, (k = ETxnCreate \/ k = ETxnDelete \/ k = 
   f_set (roles_effects k Follower true l) = None /\ f_backend (roles_effects k Follower true l) = BNone.
 Proof. intros k l [->|[->|[->|[->| ->]]]]; split; reflexivity. Qed.
 
+(* the sequential follower with the proxy: the forwarded transaction leaves the node alone, the first read installs r,
+   the second read's fetch of the same r is dropped *)
+Lemma forward_model_eq w r : forward_model w r = (if (0 <? r)%N then [r] else [], r, r).
+Proof.
+  unfold forward_model, fn_req, fn_apply, fn_init. cbn [roles_effects read_effects sync_read f_set f_resp fst fn_synced fn_rev fn_sets].
+  destruct (N.ltb_spec 0 r) as [H|H]; cbn [fn_synced fn_rev fn_sets app].
+  - rewrite N.ltb_irrefl. cbn [fn_rev fn_sets]. f_equal; [f_equal|]; lia.
+  - assert (r = 0)%N by lia. subst r. reflexivity.
+Qed.
+
 Lemma c18_forward_sound : forall w r sets h1 h2 c,
   c18_check (ForwardCase w r sets h1 h2 c) = true -> c18_oracle (ForwardCase w r sets h1 h2 c) = None.
 Proof.
-  intros w r sets h1 h2 c H. unfold c18_check, forward_model in H.
+  intros w r sets h1 h2 c H. unfold c18_check in H. rewrite forward_model_eq in H.
   repeat (apply andb_true_iff in H; destruct H as [H ?]). apply list_eqb_N_eq in H. subst sets.
-  apply N.eqb_eq in H2, H1. subst h1 h2 c. unfold c18_oracle. cbn [forallb]. rewrite N.eqb_refl, N.leb_refl. reflexivity.
+  apply N.eqb_eq in H2, H1. subst h1 h2 c. unfold c18_oracle. rewrite N.leb_refl.
+  destruct (0 <? r)%N; cbn [forallb]; rewrite ?N.eqb_refl; reflexivity.
 Qed.
+
+(* ------------------------------------------------------------------ soundness for every case kind *)
+
+(* the hypotheses of the per-kind soundness lemmas, as a proposition, and its decision *)
+Definition c18_valid_prop (c : c18_case) : Prop :=
+  match c with
+  | OverlapCase r _ _ _ _ _ => (0 < r)%N
+  | SchedCase l0 f0 ls _ _ _ =>
+      let s := run_code (i_init l0 f0) ls in t_pc (i_a s) = PDone /\ t_pc (i_b s) = PDone
+  | FollowCase _ _ r1 r2 _ _ => (0 < r1)%N /\ (r1 < r2)%N
+  | _ => True
+  end.
+
+Lemma c18_validb_sound c : c18_validb c = true <-> c18_valid_prop c.
+Proof.
+  destruct c; cbn [c18_validb c18_valid_prop]; try tauto.
+  - unfold thr_done. rewrite andb_true_iff.
+    destruct (t_pc (i_a (run_code (i_init leader0 frev0) ls))), (t_pc (i_b (run_code (i_init leader0 frev0) ls)));
+      split; intros [H1 H2]; try discriminate; auto.
+  - apply N.ltb_lt.
+  - rewrite andb_true_iff, !N.ltb_lt. tauto.
+Qed.
+
+(* every kind the driver emits: a valid case on which the model and the implementation agree satisfies the property *)
+Lemma c18_oracle_sound : forall c, c18_valid_prop c -> c18_check c = true -> c18_oracle c = None.
+Proof.
+  intros c Hv H. pose proof (proj2 (c18_validb_sound c) Hv) as Hvb. destruct c.
+  - apply (c18_role_sound _ _ _ _ _ H).
+  - apply (c18_sched_sound _ _ _ _ _ _ Hvb H).
+  - apply (c18_overlap_sound _ _ _ _ _ _ Hv H).
+  - destruct Hv as [H1 H2]. apply (c18_follow_sound _ _ _ _ _ _ H1 H2 H).
+  - apply (c18_forward_sound _ _ _ _ _ _ H).
+  - apply (c18_takeover_sound _ _ _ _ _ _ H).
+Qed.
+
+Lemma c18_checkv_sound : forall c, c18_checkv c = true -> c18_oracle c = None.
+Proof.
+  intros c H. unfold c18_checkv in H. apply andb_true_iff in H. destruct H as [Hv Hc].
+  apply c18_oracle_sound; [apply c18_validb_sound; exact Hv|exact Hc].
+Qed.
+
+(* "rejects as unavailable or forwards", exactly: a write or a watch on a follower is rejected as unavailable when there
+   is no etcd proxy (or the request is not an etcd one); with the proxy an etcd write or watch is forwarded *)
+Lemma follower_write_exact : forall k l, is_write k || is_stream k = true ->
+  outcome_of (roles_effects k Follower false l) = RejectUnavailable
+  /\ (etcd_fwd k <> FNone -> outcome_of (roles_effects k Follower true l) = Forward /\ f_forward (roles_effects k Follower true l) = etcd_fwd k)
+  /\ (etcd_fwd k = FNone -> outcome_of (roles_effects k Follower true l) = RejectUnavailable).
+Proof.
+  intros k l H. destruct k; try discriminate H; cbn; (split; [reflexivity|]); split; intros E; try reflexivity; try (split; reflexivity);
+    try discriminate E; try (exfalso; apply E; reflexivity).
+Qed.
+
+(* and the leader serves them itself *)
+Lemma leader_write_exact : forall k proxy l, is_write k = true -> k <> ETxnCompact -> k <> ETxnInvalid ->
+  outcome_of (roles_effects k Leader proxy l) = ApplyLocal.
+Proof. intros k proxy l H H1 H2. destruct k; try discriminate H; try reflexivity; congruence. Qed.
+
+(* the oracle's clause for writes and watches on a follower is exact: an acknowledged write that was neither applied by a
+   leader nor forwarded is flagged, so is a forward without a proxy *)
+Lemma lost_write_flagged :
+  c18_oracle (RoleCase BCreate Follower false Unreachable (mkEff RespOk false None BNone FNone)) = Some 0%N
+  /\ c18_oracle (RoleCase ETxnCreate Follower false Unreachable (mkEff RespOk false None BNone FNone)) = Some 0%N
+  /\ c18_oracle (RoleCase EWatchPure Follower false Unreachable (mkEff RespOk false None BNone FNone)) = Some 0%N
+  /\ c18_oracle (RoleCase ETxnCreate Follower false Unreachable (mkEff RespOk false None BNone FTxn)) = Some 0%N
+  /\ c18_oracle (SchedCase 10 5 [] (TObs false 0 0 false) (TObs false 0 0 false) []) = Some 0%N.
+Proof. vm_compute. repeat split. Qed.
